@@ -120,7 +120,7 @@ func OwnLayers(n *gen.Node) []Layer {
 	st := func() Layer { return withStack(gen.BuildFn) }
 	var out []Layer
 	switch n.Kind {
-	case "new", "newf", "errorf", "newf0":
+	case "new", "newf", "errorf", "newf0", "emptynew":
 		out = []Layer{st(), leafError}
 	case "protoleaf":
 		out = []Layer{libL("errorspb", "TestError")}
@@ -293,7 +293,7 @@ func OwnLayers(n *gen.Node) []Layer {
 		out = []Layer{L("*os.LinkError", "os")}
 	case "syscallerr":
 		out = []Layer{L("*os.SyscallError", "os")}
-	case "operr":
+	case "operr", "operrsrc", "operrboth", "operrnone":
 		out = []Layer{L("*net.OpError", "net")}
 	case "aswrap":
 		out = []Layer{harnessL("*gen.AsWrap")}
@@ -325,7 +325,7 @@ func OwnLayers(n *gen.Node) []Layer {
 		out = []Layer{assertL, st(), withPrefix, barrierErr}
 	case "newfe":
 		out = []Layer{st(), secondaryL, leafError}
-	case "mark":
+	case "mark", "markempty":
 		l := libL("markers", "withMark")
 		l.Mark = true
 		out = []Layer{l}
@@ -337,6 +337,8 @@ func OwnLayers(n *gen.Node) []Layer {
 		out = []Layer{st(), secondaryL, withPrefix}
 	case "join":
 		out = []Layer{st(), libL("join", "joinError")}
+	case "joinbare":
+		out = []Layer{libL("join", "joinError")}
 	case "gojoin":
 		out = []Layer{L("*errors.joinError", "errors")}
 	case "goerrorfmulti":
@@ -425,7 +427,7 @@ func Text(n *gen.Node) string {
 	case "safefmtwrap":
 		return "safe " + S[0] + ": " + k(0)
 	case "withstack", "hint", "detail", "safedetails", "telemetry", "domain", "issuelink", "tags", "tagsafe",
-		"assertion", "mark", "secondary", "http", "grpc", "pkgstack", "emptywrap", "wrapempty",
+		"assertion", "mark", "markempty", "secondary", "http", "grpc", "pkgstack", "emptywrap", "wrapempty",
 		"hintf", "detailf", "telemetry0", "combine", "issuelinkd", "issuelinku", "domainnone":
 		return k(0)
 	case "newfw":
@@ -446,9 +448,15 @@ func Text(n *gen.Node) string {
 		return S[0] + " " + S[1] + ": " + k(0)
 	case "linkerr":
 		return S[0] + " " + S[1] + " " + S[2] + ": " + k(0)
-	case "operr":
+	case "operr", "operrsrc":
 		return S[0] + " tcp " + S[1] + ": " + k(0)
-	case "join", "gojoin":
+	case "operrboth":
+		return S[0] + " tcp " + S[1] + "->" + S[2] + ": " + k(0)
+	case "operrnone":
+		return S[0] + " tcp: " + k(0)
+	case "emptynew":
+		return ""
+	case "join", "gojoin", "joinbare":
 		parts := make([]string, len(n.Kids))
 		for i := range n.Kids {
 			parts[i] = k(i)
@@ -673,7 +681,7 @@ func Taint(n *gen.Node) (unsafe, safe []Tok) {
 			rec(k, hid, inMark)
 		}
 		for _, k := range n.Hidden {
-			rec(k, true, inMark || n.Kind == "mark")
+			rec(k, true, inMark || n.Kind == "mark" || n.Kind == "markempty")
 		}
 	}
 	rec(n, false, false)
